@@ -172,8 +172,9 @@ static bool seed_equal(const Table& t, const Seed& s) {
 enum Entry { E_MEM = 0, E_DISK, E_CTOR, E_CMEM, E_CDISK, E_N };
 static const char* ename[] = {"read_fits_mem", "read_fits", "ctor(path)", "C:readsplinefitstable_mem", "C:readsplinefitstable"};
 
+static std::string g_extra_where;
 static void judge(const Seed& s, const fr::Bytes& bytes, const std::string& mcls, int entry, const std::string& path) {
-  std::string where = vf::fmt("[seed %s, %s, via %s]", s.name, mcls.c_str(), ename[entry]);
+  std::string where = vf::fmt("[seed %s, %s, via %s]%s", s.name, mcls.c_str(), ename[entry], g_extra_where.c_str());
   H->hint(mcls + ":" + ename[entry]);
   std::string key = mcls + ":" + ename[entry];
   fr::Bytes copy = bytes; if (copy.empty()) copy.push_back(0);   // exact-size buffer
@@ -263,11 +264,38 @@ static void run_foreign(uint64_t idx) {
   if (kind != 8 && !path.empty()) remove(path.c_str());
 }
 
+
+// ---- self-consistent shapes: files from the independent writer whose NAXISn, ORDERn and KNOTSn lengths all agree with each
+// other (so no single cross-check between two fields can object) but where some dimension has too few coefficients for its
+// order; every combination of per-dimension (order, coefficient count) pairs, so that asymmetric shapes are included
+static void run_shapes(uint64_t idx) {
+  static const int OPT[9][2] = {{0, 1}, {1, 2}, {1, 6}, {3, 4}, {3, 7}, {1, 1}, {3, 3}, {3, 1}, {2, 2}};   // (order, coefficients); the last four are ill-formed
+  int entry = idx % E_N; uint64_t r = idx / E_N; int d; std::vector<int> pick;
+  if (r < 9) { d = 1; pick = {(int)r}; } else if (r < 9 + 81) { r -= 9; d = 2; pick = {(int)(r / 9), (int)(r % 9)}; } else { r -= 90; d = 3; pick = {(int)(r / 81), (int)((r / 9) % 9), (int)(r % 9)}; }
+  fr::Decoded dd; dd.ndim = d; bool valid = true; uint64_t nc = 1; std::string desc;
+  for (int i = 0; i < d; i++) {
+    uint32_t o = OPT[pick[i]][0]; uint64_t n = OPT[pick[i]][1]; if (n < o + 1) valid = false;
+    dd.order.push_back(o); dd.naxes.push_back(n); nc *= n;
+    std::vector<double> k; for (uint64_t j = 0; j < n + o + 1; j++) k.push_back(-1.0 + 0.5 * j + 0.03 * j * i); dd.knots.push_back(k);
+    dd.extents.push_back(k[std::min<size_t>(o, k.size() - 1)]); dd.extents.push_back(k[std::min<size_t>(n, k.size() - 1)]);
+    desc += vf::fmt("%s(order %u, %llu coefficients)", i ? " x " : "", o, (unsigned long long)n);
+  }
+  dd.has_extents = true;
+  for (uint64_t j = 0; j < nc; j++) dd.coeffs.push_back((float)(1 + (j % 5)));
+  fr::Bytes b = fr::encode(dd);
+  std::string cls = std::string(valid ? "shape:well-formed" : "shape:too-few-coefficients-for-the-order") + vf::fmt(":d=%d", d);
+  std::string path;
+  if (entry == E_DISK || entry == E_CTOR || entry == E_CDISK) { path = vf::fmt("c07s_%d.fits", (int)getpid()); std::ofstream f(path, std::ios::binary); f.write((const char*)b.data(), b.size()); }
+  H->hint(cls + " " + desc);
+  g_extra_where = " [" + desc + "]"; judge(seeds()[0], b, cls, entry, path); g_extra_where.clear();
+  if (!path.empty()) remove(path.c_str());
+}
+
 int main(int argc, char** argv) {
   vf::Harness h("C07", argc, argv);
   H = &h;
   h.meta("level", "fault_enumeration");
-  h.meta("rule", "three valid seed files from the independent writer (1-d; 2-d with aux keys; 3-d with custom EXTENTS and PERIODn); every single deviation of: each header card of each HDU (delete, duplicate, blank value, rename, 12 replacement values for structural keys), each extension (drop, duplicate, swap with every later one, resize -1/+1/+400, retarget or junk EXTNAME, change BITPIX), each knot vector (NaN/+-inf at first/middle/last, descending, one inversion, all equal, huge), truncation at every block edge, every card edge and +-1 byte around every HDU boundary, appended garbage, and bit flips {01,80,FF} of every byte of every header block and of the first/last data block (seed 1 in quick, all seeds in thorough), plus foreign inputs; each file through read_fits_mem, read_fits, constructor, and both C readers; failure => object empty, reusable for the valid seed, destructible; success => well-formedness predicate then battery (lookup, evaluations at margins/knots/NaN/inf, ==, re-serialisation, permutation, destruction) under ASan/UBSan; distinct = (mutation class, entry point, outcome, failure message)");
+  h.meta("rule", "three valid seed files from the independent writer (1-d; 2-d with aux keys; 3-d with custom EXTENTS and PERIODn); every single deviation of: each header card of each HDU (delete, duplicate, blank value, rename, 12 replacement values for structural keys), each extension (drop, duplicate, swap with every later one, resize -1/+1/+400, retarget or junk EXTNAME, change BITPIX), each knot vector (NaN/+-inf at first/middle/last, descending, one inversion, all equal, huge), truncation at every block edge, every card edge and +-1 byte around every HDU boundary, appended garbage, and bit flips {01,80,FF} of every byte of every header block and of the first/last data block (seed 1 in quick, all seeds in thorough), plus foreign inputs, plus space 'shapes': 819 self-consistent files of 1..3 dimensions with every combination of per-dimension (order, coefficient count) from {(0,1),(1,2),(1,6),(3,4),(3,7) well-formed; (1,1),(3,3),(3,1),(2,2) too few coefficients} whose NAXISn / ORDERn / KNOTSn lengths agree with each other; each file through read_fits_mem, read_fits, constructor, and both C readers; failure => object empty, reusable for the valid seed, destructible; success => well-formedness predicate then battery (lookup, evaluations at margins/knots/NaN/inf, ==, re-serialisation, permutation, destruction) under ASan/UBSan; distinct = (mutation class, entry point, outcome, failure message)");
   h.meta("assumption", "pairs of deviations are not enumerated; the tools' exit status is covered through the same constructor-from-path entry they use");
   h.meta("require_clean_failures", "1000");
   h.meta("require_loaded", "100");
@@ -275,6 +303,7 @@ int main(int argc, char** argv) {
   h.timeout_s = 30;
   bool T = h.thorough;
   h.add_space("foreign", 9 * E_N, run_foreign);
+  h.add_space("shapes", (9ull + 81 + 729) * E_N, run_shapes);
   for (int si = 0; si < 3; si++) {
     bool all_bytes = T || si == 0;
     size_t n = mutations(seeds()[si], T, all_bytes).size();
